@@ -79,7 +79,7 @@ func hStepValid(st HStep) string {
 		if st.N < 0 || st.N > 2000 {
 			return "length out of range"
 		}
-	case "repout":
+	case "repout", "repin":
 		if st.N < 0 || st.N > 600 {
 			return "count out of range"
 		}
@@ -191,6 +191,22 @@ func hModelStep(m *ref.Tx, q *ref.FeeQuote, st HStep) (applied bool) {
 		for j := 0; j < st.N; j++ {
 			m.Out = append(m.Out, ref.Out{Sats: 0, Script: append(pbt.Hex{}, last.Script...)})
 		}
+	case "repin":
+		if nin == 0 {
+			return false
+		}
+		last := m.In[nin-1]
+		for j := 0; j < st.N; j++ {
+			in := last
+			in.TxID = append(pbt.Hex{}, last.TxID...)
+			if len(in.TxID) == 32 {
+				in.TxID[0], in.TxID[1], in.TxID[2] = byte(j), byte(j>>8)^0x3c, byte(nin)
+			}
+			in.PrevSats = 0
+			in.Unlock = append(pbt.Hex{}, last.Unlock...)
+			in.PrevScript = append(pbt.Hex{}, last.PrevScript...)
+			m.In = append(m.In, in)
+		}
 	case "truncout":
 		if st.N < 0 || st.N >= nout {
 			return false
@@ -239,7 +255,7 @@ func hModelStep(m *ref.Tx, q *ref.FeeQuote, st HStep) (applied bool) {
 }
 
 // hLibStep performs an edit step on the library objects, in place.
-func hLibStep(tx *bt.Tx, fq *bt.FeeQuote, q ref.FeeQuote, st HStep) error {
+func hLibStep(tx *bt.Tx, fq *bt.FeeQuote, q ref.FeeQuote, m ref.Tx, st HStep) error {
 	nin, nout := len(tx.Inputs), len(tx.Outputs)
 	switch st.Kind {
 	case "query": // answers are C11's business; here they only give the library a chance to remember something
@@ -285,6 +301,18 @@ func hLibStep(tx *bt.Tx, fq *bt.FeeQuote, q ref.FeeQuote, st HStep) error {
 		last := tx.Outputs[nout-1]
 		for j := 0; j < st.N; j++ {
 			tx.Outputs = append(tx.Outputs, &bt.Output{Satoshis: 0, LockingScript: bscript.NewFromBytes(append([]byte{}, *last.LockingScript...))})
+		}
+	case "repin": // the model already holds the replicas
+		for _, in := range m.In[nin:] {
+			i := &bt.Input{PreviousTxOutIndex: in.Vout, SequenceNumber: in.Seq, PreviousTxSatoshis: in.PrevSats}
+			if err := i.PreviousTxIDAdd(append([]byte{}, in.TxID...)); err != nil {
+				return fmt.Errorf("harness: %v", err)
+			}
+			if !in.UnlockNil {
+				i.UnlockingScript = bscript.NewFromBytes(append([]byte{}, in.Unlock...))
+			}
+			i.PreviousTxScript = bscript.NewFromBytes(append([]byte{}, in.PrevScript...))
+			tx.Inputs = append(tx.Inputs, i)
 		}
 	case "truncout":
 		tx.Outputs = tx.Outputs[:st.N]
@@ -438,7 +466,7 @@ func checkHistory(ctx *pbt.Ctx, c HistCase) error {
 				ctx.Label("step-skipped")
 				continue
 			}
-			if err := hLibStep(tx, fq, q, st); err != nil {
+			if err := hLibStep(tx, fq, q, m, st); err != nil {
 				return err
 			}
 			switch st.Kind {
@@ -468,7 +496,7 @@ func checkHistory(ctx *pbt.Ctx, c HistCase) error {
 // generator
 
 func genHChange(t *rapid.T, nout int) HStep {
-	st := HStep{Kind: "change"}
+	st := HStep{Kind: "change", Rel: "unaimed"}
 	switch rapid.IntRange(0, 6).Draw(t, "destk") {
 	case 0, 1, 2:
 		st.Dest = destAddress
@@ -502,7 +530,7 @@ func genHAim(t *rapid.T, m ref.Tx, q ref.FeeQuote, st *HStep) (HStep, bool) {
 	}
 	f, dust := fWith.Uint64(), uint64(bt.DustLimit)
 	outSum := ref.FeeSumOut(m).Uint64()
-	st.Rel = rapid.SampledFrom([]string{"fee", "fee+1", "fee+dust", "fee+dust+1", "fee+dust+2", "ample", "ample", "ample", "ample", "huge", "insufficient"}).Draw(t, "rel")
+	st.Rel = rapid.SampledFrom([]string{"fee-1", "fee", "fee+1", "fee+dust", "fee+dust+1", "fee+dust+2", "ample", "ample", "ample", "ample", "huge", "insufficient"}).Draw(t, "rel")
 	var total uint64
 	switch st.Rel {
 	case "insufficient":
@@ -511,6 +539,11 @@ func genHAim(t *rapid.T, m ref.Tx, q ref.FeeQuote, st *HStep) (HStep, bool) {
 		} else {
 			total = outSum - 1
 		}
+	case "fee-1":
+		if f == 0 {
+			st.Rel = "fee"
+		}
+		total = outSum + max(f, 1) - 1
 	case "fee":
 		total = outSum + f
 	case "fee+1":
@@ -537,7 +570,7 @@ func genHAim(t *rapid.T, m ref.Tx, q ref.FeeQuote, st *HStep) (HStep, bool) {
 
 func genHEdit(t *rapid.T, m ref.Tx) HStep {
 	nout := len(m.Out)
-	kinds := []string{"query", "query", "addin", "isats", "iunlock", "rmin", "addout", "addout", "osats", "rmout", "oappend", "oappend", "obyte", "rep", "truncout", "quote", "quote", "fund", "clone"}
+	kinds := []string{"query", "query", "addin", "isats", "iunlock", "rmin", "addout", "addout", "osats", "rmout", "oappend", "oappend", "obyte", "rep", "rep", "repin", "truncout", "quote", "quote", "fund", "fund", "clone"}
 	st := HStep{Kind: rapid.SampledFrom(kinds).Draw(t, "kind")}
 	st.At = rapid.IntRange(0, 5).Draw(t, "at")
 	switch st.Kind {
@@ -568,6 +601,8 @@ func genHEdit(t *rapid.T, m ref.Tx) HStep {
 	case "rep": // the next change output is the 252nd, 253rd (count prefix grows) or 254th
 		st.Kind = "repout"
 		st.N = max(rapid.SampledFrom([]int{250, 251, 251, 252, 252, 252, 253}).Draw(t, "total")-nout, 0)
+	case "repin": // input count around its own three-byte prefix
+		st.N = max(rapid.SampledFrom([]int{251, 252, 253, 254}).Draw(t, "total_in")-len(m.In), 0)
 	case "truncout":
 		st.N = rapid.SampledFrom([]int{0, 1, 2, 251, 252}).Draw(t, "keep")
 	case "quote":
